@@ -115,6 +115,8 @@ type Enc struct {
 	oblCount    map[string]int
 	depth       int
 	inlineStack map[*ssa.Function]bool
+	ranges      map[*ssa.Range]*rangeModel
+	curIterHeap string
 	top         *frame
 	specDone    map[string]bool
 	specSigs    map[string]*specSig
@@ -260,7 +262,7 @@ func (e *Enc) frameCheck(st *bstate, c *Comp, idx []string, pos token.Pos) {
 	if e.C == nil || !e.C.HasMod || e.depth > 0 && false {
 		return
 	}
-	if c.Kind == "alloc" || len(idx) == 0 {
+	if c.Kind == "alloc" || c.Kind == "iter" || len(idx) == 0 {
 		return
 	}
 	if e.inFrame(c) {
@@ -290,6 +292,9 @@ func (e *Enc) inFrame(c *Comp) bool {
 func (e *Enc) frameComps(c *Contract, f *ssa.Function) []string {
 	var out []string
 	for _, m := range c.Modifies {
+		if i := strings.Index(m, "@"); i >= 0 {
+			m = strings.TrimSpace(m[:i]) // own frame: component granularity
+		}
 		out = append(out, e.resolveCompSpec(m, c.Pkg)...)
 	}
 	return out
@@ -367,6 +372,14 @@ func (e *Enc) evalType(s string, pkg *types.Package) (types.Type, error) {
 		}
 	}
 	tv, err := types.Eval(e.P.fset, pkg, token.NoPos, s)
+	if err != nil {
+		// retry in the file scopes of the package (imports are visible there)
+		for _, f := range e.P.pkgFiles[pkg.Path()] {
+			if tv2, err2 := types.Eval(e.P.fset, pkg, f.Name.End(), s); err2 == nil {
+				return tv2.Type, nil
+			}
+		}
+	}
 	if err != nil {
 		// try with imports of pkg visible by name: pkgname.Type
 		if i := strings.Index(s, "."); i > 0 {
